@@ -42,12 +42,72 @@ def sEqSp : Bytes := [32, 61, 32]                                         -- " =
 def sGlobalKw : Bytes := [103, 108, 111, 98, 97, 108, 32]                 -- "global "
 def sConstantKw : Bytes := [99, 111, 110, 115, 116, 97, 110, 116, 32]     -- "constant "
 
+def sCommaSection : Bytes := [44, 32, 115, 101, 99, 116, 105, 111, 110, 32]        -- ", section "
+def sCommaPartition : Bytes := [44, 32, 112, 97, 114, 116, 105, 116, 105, 111, 110, 32]    -- ", partition "
+def sCommaAlign : Bytes := [44, 32, 97, 108, 105, 103, 110, 32]            -- ", align "
+
+/-- the clauses behind the initializer, in the order of the grammar and of the printer (ir/global.go LLString) -/
+def gtailString (t : Core2.GTail) : Bytes :=
+  (if t.sect.isEmpty then [] else sCommaSection ++ Enc.quote t.sect) ++
+  ((if t.partition.isEmpty then [] else sCommaPartition ++ Enc.quote t.partition) ++
+   (if t.align == 0 then [] else sCommaAlign ++ natDec t.align))
+
+def gtailsOK (gs : List Core2.Global) : Bool := gs.all fun g => decide (g.tail.align < 2 ^ 64)
+
+/-- a quoted string up to its closing quote, decoded -/
+def readQuoted (s : Bytes) : Option (Bytes × Bytes) :=
+  match s with
+  | 34 :: q => (match q.dropWhile (· != 34) with | 34 :: r => some (Enc.unescape (q.takeWhile (· != 34)), r) | _ => none)
+  | _ => none
+
+inductive GItem where
+  | sect (s : Bytes)
+  | part (s : Bytes)
+  | align (n : Nat)
+  deriving DecidableEq, Repr
+
+/-- the clauses behind the initializer up to the end of the line, as written: the real grammar takes them in ANY order and any number of times -/
+def readGItems : Nat → Bytes → Option (List GItem)
+  | 0, _ => none
+  | _ + 1, [] => some []
+  | f + 1, s =>
+    match TyParse.stripPrefix sCommaSection s with
+    | some q => (match readQuoted q with | some (x, r) => (readGItems f r).map (GItem.sect x :: ·) | none => none)
+    | none =>
+      match TyParse.stripPrefix sCommaPartition s with
+      | some q => (match readQuoted q with | some (x, r) => (readGItems f r).map (GItem.part x :: ·) | none => none)
+      | none =>
+        match TyParse.stripPrefix sCommaAlign s with
+        | some q => (match TyParse.readNat q with | some (n, r) => (readGItems f r).map (GItem.align n :: ·) | none => none)
+        | none => none
+
+/-- asm/global.go irGlobal: every clause overwrites the field (the LAST one written wins); an alignment beyond 64 bits is rejected (the real parser panics on it) -/
+def applyG (t : Core2.GTail) : GItem → Option Core2.GTail
+  | .sect s => some { t with sect := s }
+  | .part s => some { t with partition := s }
+  | .align n => if n < 2 ^ 64 then some { t with align := n } else none
+
+def readGTail (s : Bytes) : Option Core2.GTail := (readGItems (s.length + 4) s).bind (·.foldlM applyG {})
+
+/-- the clauses the printer writes, in its order -/
+def gitemsOf (t : Core2.GTail) : List GItem :=
+  (if t.sect.isEmpty then [] else [.sect t.sect]) ++ ((if t.partition.isEmpty then [] else [.part t.partition]) ++ (if t.align == 0 then [] else [.align t.align]))
+
+/-- `T V` at the head of the text behind `global ` / `constant `, and what follows the constant -/
+def splitInit (x : Bytes) : Option (Bytes × Bytes) :=
+  match TyParse.parseTy (Core2.tyFuel x) x with
+  | some (t, 32 :: r1) =>
+    (match Core2.parseConst (r1.length + 1) t r1 with
+     | some (_, r2) => some (x.take (x.length - r2.length), r2)
+     | none => none)
+  | _ => none
+
 /-! ### printing -/
 
 def typedefLine (d : Core2.TypeDef) : Bytes := Enc.typeName d.name ++ Core2.sType ++ Core2.bodyString d.body
 
 def globalLine (useHex : Int → Bool) (g : Core2.Global) : Bytes :=
-  Enc.globalName g.name ++ sEqSp ++ Core3.flagsString kGLead g.lead ++ (if g.isConst then sConstantKw else sGlobalKw) ++ tyString g.ty ++ [32] ++ Core2.constIdent useHex g.ty g.init
+  Enc.globalName g.name ++ sEqSp ++ Core3.flagsString kGLead g.lead ++ (if g.isConst then sConstantKw else sGlobalKw) ++ tyString g.ty ++ [32] ++ Core2.constIdent useHex g.ty g.init ++ gtailString g.tail
 
 /-- function definitions are separated by an empty line -/
 def funcsLines (useHex : Int → Bool) : List Core3.Func → List Bytes
@@ -87,11 +147,15 @@ def readEntityLine (s : Bytes) : Option Core2.Line :=
        (match stripPrefix sEqSp rest with
         | some r0 =>
           let (lead, r1) := Core3.readFlags (r0.length + 1) kGLead r0
+          let fin (k : Bool) (x : Bytes) : Option Core2.Line :=
+            match splitInit x with
+            | some (tv, r2) => (match readGTail r2 with | some tl => some (.global (64 :: tok) k tv lead tl) | none => none)
+            | none => none
           (match stripPrefix sGlobalKw r1 with
-           | some x => some (.global (64 :: tok) false x lead)
+           | some x => fin false x
            | none =>
              (match stripPrefix sConstantKw r1 with
-              | some x => some (.global (64 :: tok) true x lead)
+              | some x => fin true x
               | none => none))
         | none => none)
      | none => none)
